@@ -97,6 +97,7 @@ pub fn gen_case(prop: &str, tier: Tier, seed: u64) -> Case {
             c.class = format!("crash-{}", c.class);
             c
         }
+        "C11" if seed % 32 == 1 => seqprops::gen_c11_sealed_clear(tier, seed),
         "C11" => seqprops::gen_c11(tier, seed),
         "C12" if seed % 64 == 1 => ioprops::gen_delete_fault(tier, seed, "C12"),
         "C12" if seed % 8 == 0 => thrprops::gen_c12t(tier, seed),
